@@ -333,27 +333,43 @@ func c14R3(c *Ctx, rule string) {
 		}
 		c.Check(refusal, rule, "refusal reports io.ErrShortBuffer", c.atFn(wr), "return …, io.ErrShortBuffer under Unordered", "the oversize unordered write is not reported as an error")
 	}
-	// maxStreamUnitWrite is only stored in MakeSession as limit - header - maxExtra
+	checkMaxUnit(c, rule)
+}
+
+// checkMaxUnit: every store to Session.maxStreamUnitWrite is (MsgOnWireSizeLimit − frameHeaderLength − maxExtraLen),
+// compared as an affine form so that regrouping does not matter.
+func checkMaxUnit(c *Ctx, rule string) {
+	p := c.P
+	maxF := p.Field("internal/multiplex", "Session", "maxStreamUnitWrite")
+	if maxF == nil {
+		c.Undecided(rule, "anchor Session.maxStreamUnitWrite", "-", "not found")
+		return
+	}
+	hdr, _ := p.Const("internal/multiplex", "frameHeaderLength")
+	ext, _ := p.Const("internal/multiplex", "maxExtraLen")
+	n := 0
 	for _, st := range FieldStores(p, maxF) {
 		if strings.HasSuffix(p.Pos(st.Pos()), "_test.go") || strings.HasSuffix(p.Pos(st.Pos()), "_fuzz.go") {
 			continue
 		}
-		e := Expr(st.Val)
-		hdr, _ := p.Const("internal/multiplex", "frameHeaderLength")
-		ext, _ := p.Const("internal/multiplex", "maxExtraLen")
-		ok := false
-		if bo, isB := st.Val.(*ssa.BinOp); isB && bo.Op == token.SUB {
-			if k2, ok2 := intConst(bo.Y); ok2 {
-				if b1, isB1 := bo.X.(*ssa.BinOp); isB1 && b1.Op == token.SUB {
-					if k1, ok1 := intConst(b1.Y); ok1 && k1+k2 == hdr+ext {
-						if fv, _ := loadedField(b1.X); fv != nil && fv.Name() == "MsgOnWireSizeLimit" {
-							ok = true
-						}
-					}
+		n++
+		b := &Bounds{}
+		up, ok1 := b.Upper(st.Val)
+		lo, ok2 := b.Lower(st.Val)
+		ok := ok1 && ok2 && up.C == -(hdr+ext) && lo.C == up.C && len(up.Terms) == 1 && len(lo.Terms) == 1
+		if ok {
+			for sym, k := range up.Terms {
+				fv, _ := loadedField(sym)
+				if k != 1 || fv == nil || fv.Name() != "MsgOnWireSizeLimit" || lo.Terms[sym] != 1 {
+					ok = false
 				}
 			}
 		}
-		c.Check(ok, rule, "per-frame maximum = on-wire limit − header − max extra in "+shortFn(st.Parent()), c.at(st), e, "maxStreamUnitWrite is "+e+", not MsgOnWireSizeLimit − 14 − 255: a maximal frame plus padding and tag can exceed the on-wire limit or the refusal window shifts")
+		c.Check(ok, rule, "per-frame maximum = on-wire limit − header − max extra in "+shortFn(st.Parent()), c.at(st), up.String(),
+			"maxStreamUnitWrite is "+Expr(st.Val)+", not MsgOnWireSizeLimit − "+fmt.Sprint(hdr+ext)+": a maximal frame plus padding and tag can exceed the configured on-wire limit (or the oversize-refusal window shifts)")
+	}
+	if n == 0 {
+		c.Undecided(rule, "stores to Session.maxStreamUnitWrite", "-", "none found")
 	}
 }
 
